@@ -144,7 +144,8 @@ RowsKeyed(tab, key) == {i \in 1..Len(tab.rows) : tab.rows[i].key = key}
 
 ---------------------------------------------------------------------------
 (* parameters and data objects: encoder *)
-IsKey(p) == p.k \in {"LENGTH-KEY", "TABLE-KEY"}
+StaticKey(p) == p.k = "TABLE-KEY" /\ p.cv.t = "str"
+IsKey(p) == p.k = "LENGTH-KEY" \/ (p.k = "TABLE-KEY" /\ ~StaticKey(p))
 ParamNames(ps) == {ps[i].n : i \in 1..Len(ps)}
 DictNames(d) == {d.v[i][1] : i \in 1..Len(d.v)}
 DopBits(d) == IF d.k = "simple" /\ d.dct.k = "std" THEN d.dct.bits ELSE -1
@@ -175,6 +176,11 @@ EncParam(p, v, st, last, outerEop) ==
                         ELSE [s0 EXCEPT !.lk = PairsPut(s0.lk, p.n, v.v)]
                   w == (bit + DopBits(p.dop) + 7) \div 8
               IN [Emplace([s1 EXCEPT !.kp = PairsPut(s1.kp, p.n, s0.cur)], Zeros(8 * w), Zeros(8 * w)) EXCEPT !.err = s1.err]
+         [] p.k = "TABLE-KEY" /\ StaticKey(p) ->
+              \* the row is selected by the description (TABLE-ROW-REF): the key has no representation in the PDU; an
+              \* explicit value can only name that row
+              IF ~IsMissing(v) /\ (v.t # "str" \/ v.s # p.cv.s) THEN Err(s0)
+              ELSE [s0 EXCEPT !.tk = PairsPut(s0.tk, p.n, p.cv.s)]
          [] p.k = "TABLE-KEY" ->
               \* placeholder like a length key; an explicit value names the row and must agree with what is already chosen
               LET s1 == IF IsMissing(v) THEN s0
@@ -209,7 +215,7 @@ PatchKeys(ps, i, st) ==
             s0 == [st EXCEPT !.cur = PairsGet(st.kp, p.n)]
         IN IF ~PairsHas(st.lk, p.n) THEN Err(st)
            ELSE PatchKeys(ps, i + 1, EncDop(p.dop, IntV(PairsGet(st.lk, p.n)), s0, IF p.bi >= 0 THEN p.bi ELSE 0))
-    ELSE IF ps[i].k = "TABLE-KEY" THEN
+    ELSE IF ps[i].k = "TABLE-KEY" /\ ~StaticKey(ps[i]) THEN
         LET p == ps[i]
             s0 == [st EXCEPT !.cur = PairsGet(st.kp, p.n)]
             hit == IF PairsHas(st.tk, p.n) THEN RowsNamed(p.dop, PairsGet(st.tk, p.n)) ELSE {}
@@ -387,6 +393,7 @@ DecParam(p, ds) ==
          [] p.k = "LENGTH-KEY" -> LET r == DecDop(p.dop, d0, bit) IN
                                   IF r.ds.err \/ r.v.t # "int" THEN R(DErr(r.ds), Missing)
                                   ELSE R([r.ds EXCEPT !.lk = PairsPut(r.ds.lk, p.n, r.v.v)], r.v)
+         [] p.k = "TABLE-KEY" /\ StaticKey(p) -> R([d0 EXCEPT !.tk = PairsPut(d0.tk, p.n, p.cv.s)], Str(p.cv.s))
          [] p.k = "TABLE-KEY" -> LET r == DecAtomic(p.dop.kdct, d0, bit) IN
                                  IF r.ds.err \/ r.v.t # "int" THEN R(DErr(r.ds), Missing)
                                  ELSE LET hit == RowsKeyed(p.dop, r.v.v) IN
